@@ -215,14 +215,22 @@ def evaluate__mod_operator(self: XPathToken, context: ta.ContextType = None) \
         return []
     elif op2 is None:
         raise self.error('XPTY0004', '2nd operand is an empty sequence')
-    elif op2 == 0 and isinstance(op2, float):
+    elif op2 == 0 and (isinstance(op1, float) or isinstance(op2, float)):
         return math.nan
-    elif math.isinf(op2) and not math.isinf(op1) and op1 != 0:
-        return op1 if self.parser.version != '1.0' else math.nan
+    elif math.isinf(op2) and not math.isinf(op1) and op1 != 0 and self.parser.version == '1.0':
+        return math.nan
 
     try:
         if isinstance(op1, int) and isinstance(op2, int):
-            return op1 % op2 if op1 * op2 >= 0 else -(abs(op1) % op2)
+            return abs(op1) % abs(op2) if op1 >= 0 else -(abs(op1) % abs(op2))
+        elif isinstance(op1, float) or isinstance(op2, float):
+            # IEEE 754 remainder with truncation: the result has the sign of the dividend
+            result = op1 % op2  # type: ignore[operator]
+            if math.isnan(result) or math.isinf(op1):
+                return result
+            elif math.isinf(op2):
+                return type(result)(op1)
+            return type(result)(math.fmod(op1, op2))
         return op1 % op2  # type: ignore[operator]
     except TypeError as err:
         raise self.error('FORG0006', err) from None
